@@ -68,6 +68,28 @@ CHECKS = {
          "calibration must return the stored dtype bitwise; after every attribute op the HDF5 dataset is read with "
          "h5py and must equal the raw model.", "NumPy float64 arithmetic as reference; +-inf / overflowing elements masked.",
          "DESIGN.md 4/C15"),
+ "C01": ("Hypothesis-generated write/assign/append/resize/reopen histories x 12 element types x compression triples vs. NumPy model with a 'defined' mask",
+         "Each step is applied to the real array and to a NumPy model of the same dtype; after every step and after "
+         "RW / RO reopen shape, len, size, dtype, data_type and all defined elements are compared bitwise (NaN-aware, "
+         "sign of zero) / exactly for text; all 27 file x block x array compression triples are enumerated per element "
+         "type and creation path.", "Cells exposed by growing an array are undefined and masked; Auto compression "
+         "resolution is only counted.", "DESIGN.md 4/C01"),
+ "C10": ("exhaustive type-confusion grids + Hypothesis-generated property/section programs vs. Python list/dict model",
+         "Typed value lists (create / assign / extend / clear / extend-after-clear, list / tuple / ndarray forms) with the "
+         "odd element at every position for every ordered type pair are enumerated exhaustively; generated programs over a "
+         "section tree with reopen compare values, types, optional attributes and dict-style access with a Python model.",
+         "A bare empty string as single value is the library's documented 'no value' and is not generated.", "DESIGN.md 4/C10"),
+ "C13": ("Hypothesis-generated section/source trees with repeated names and link assignments vs. tree model (BFS, parents, inverse links)",
+         "find_* from every start with every limit and filter, parent / parent_source / parent_block through creation, "
+         "lookup, found, metadata-link and link-list handles, and all referring_* lists are compared with a tree model, "
+         "in session and after read-only reopen.", "find_*(limit=0) on File/Block is unspecified and not asked.",
+         "DESIGN.md 4/C13"),
+ "C14": ("Hypothesis-generated well-formed recipes + single/pairwise catalogue injections vs. reference validator over the recipe",
+         "Well-formed files of every entity kind must validate without errors; every catalogue inconsistency injected "
+         "through the public API must be reported for exactly the objects a reference validator (written from the English "
+         "catalogue, working on the recipe, not the file) computes, dependants included; the CLI validator is compared too.",
+         "Documented co-reports are allowed rather than required; compound-unit convertibility is unspecified.",
+         "DESIGN.md 4/C14"),
 }
 PENDING = {}
 LEVELS = {"C12": "fault_enumeration"}
